@@ -563,7 +563,7 @@ def run(ctx):
                  3 if quick else 4, len(g.nodes), g.n_edges(), npaths, len(paths), len(base), len(skipped)))
     del g
     # (3) replay
-    budget = {'read': 8000, 'expect': 4000, 'async': 3000} if quick else {'read': 120000, 'expect': 60000, 'async': 40000}
+    budget = {'read': 8000, 'expect': 4000, 'async': 3000} if quick else {'read': 70000, 'expect': 35000, 'async': 25000}
     jobs = []
     for t, v in VARIANTS:
         n = budget[v] if t != 'pty' else budget[v] // 2
@@ -585,7 +585,8 @@ def run(ctx):
         outs = pool.map(run_case, first, chunksize=8)
         nf = {}
         for j, o in zip(first, outs):
-            if o['fails']:
+            # (failures that match a recorded known finding do not count: recording one must not cost coverage)
+            if any(not any(common.matches(k, common.Failure(cl, None, None, signature(j))) for k in ctx.findings) for cl, d in o['fails']):
                 nf[(j['transport'], j['variant'])] = nf.get((j['transport'], j['variant']), 0) + 1
         broken = set(k for k, n in nf.items() if n >= 30)
         rest = [j for j in rest if (j['transport'], j['variant']) not in broken]
